@@ -18,7 +18,8 @@ ANCH = ["top", "x", "a-b", "1", "sec_2"]
 
 def near_misses(a: str):
     base = a.split("/")[-1]
-    return [
+    stem = [a[:-4]] if a.endswith((".zoq", ".zot")) else []
+    return stem + [
         "x" + a, a + "x", a + "/x", "x/" + a, a + ".zo", a + "_", a[:-1] if len(a) > 1 else a + a, a.upper() if a.upper() != a else a + "Z",
         base if base != a else a + "0", re.sub(r"[^A-Za-z0-9/_]", "x", a) if re.search(r"[^A-Za-z0-9/_]", a) else a + "2",
         re.sub(r"[^A-Za-z0-9/_]", "", a) if re.search(r"[^A-Za-z0-9/_]", a) else a + "3",
@@ -85,6 +86,17 @@ def gen_case(rng):
     a = rng.choice(NAMES)
     b = rng.choice([n for n in NAMES if n != a] + ["new/place/" + a.split("/")[-1], a + "2"])
     files = {}
+    if rng.random() < 0.2 and "." not in a and "." not in b:
+        # the renamed file is a query page or a template: links to it carry the extension (`[[inbox.zoq]]`), and links to the
+        # page of the same base name (`[[inbox]]` = inbox.zo) are a near miss
+        ext0 = rng.choice([".zoq", ".zot"])
+        a, b = a + ext0, b + ext0
+        files[a] = gen_text(rng, a, b, ext0)
+        for i in range(rng.randint(1, 4)):
+            ext = rng.choice([".zo", ".zo", ".zot", ".zoq"])
+            d = rng.choice(["", "", "proj/", "deep/er/"])
+            files[f"{d}g{i}{ext}"] = gen_text(rng, a, b, ext)
+        return {"src": a, "dst": b, "files": files, "mkdst": rng.random() < 0.93}
     src_ext = rng.random() < 0.3
     srcfile = a + ".zo"
     files[srcfile] = gen_text(rng, a, b, ".zo")
